@@ -25,14 +25,14 @@ def O(pid):
 
 
 PROPS = {
-    "C01": P("model_checking", ARITH_RULE, 2500, 15000, *A("C01")),
+    "C01": P("model_checking", ARITH_RULE, 3000, 15000, *A("C01")),
     "C02": P("model_checking", ARITH_RULE, 2500, 15000, *A("C02")),
-    "C03": P("model_checking", ARITH_RULE, 1500, 8000, *A("C03")),
+    "C03": P("model_checking", ARITH_RULE, 2000, 8000, *A("C03")),
     "C04": P("model_checking", GEN_RULE, 8000, 150000, *O("C04"), count_all=True),
     "C05": P("model_checking", GEN_RULE, 6000, 150000, [("MC_Text.tla", "MC_Text_syn_quick.cfg")], [("MC_Text.tla", "MC_Text_syn_thorough.cfg")], count_all=True),
     "C06": P("model_checking", GEN_RULE, 3000, 20000, [("MC_Text.tla", "MC_Text_str_quick.cfg")], [("MC_Text.tla", "MC_Text_str_thorough.cfg")], count_all=True),
     "C07": P("model_checking", GEN_RULE, 5000, 150000, [("MC_Fmt.tla", "MC_Fmt_quick.cfg")], [("MC_Fmt.tla", "MC_Fmt_thorough.cfg")], count_all=True),
-    "C08": P("model_checking", GEN_RULE, 2500, 80000, *O("C08")),
+    "C08": P("model_checking", GEN_RULE, 3500, 80000, *O("C08")),
     "C09": P("model_checking", GEN_RULE, 700, 6000, [("MC_Convert.tla", "MC_Convert_quick.cfg")], [("MC_Convert.tla", "MC_Convert_thorough.cfg")], count_all=True),
     "C10": P("model_checking", GEN_RULE, 3000, 80000, [("MC_Convert.tla", "MC_Convert_quick.cfg")], [("MC_Convert.tla", "MC_Convert_thorough.cfg")], count_all=True),
     "C11": P("model_checking", GEN_RULE, 1500, 50000, *O("C11")),
